@@ -1590,6 +1590,9 @@ func inlinable(f *ssa.Function) bool {
 	if !inlinableShape(f) {
 		return false
 	}
+	if termAnchors[f.Name()] && f.Signature.Recv() == nil {
+		return false
+	}
 	switch fnPkgPath(f) {
 	case modPath + "/ecdsa", modPath + "/ed25519":
 		// the forks' API and the named steps of their algorithms stay opaque
@@ -2301,3 +2304,7 @@ func spilledParam(v ssa.Value) *ssa.Parameter {
 func isBuilderPtr(t types.Type) bool {
 	return strings.HasSuffix(t.String(), "golang.org/x/crypto/cryptobyte.Builder") && strings.HasPrefix(t.String(), "*")
 }
+
+// termAnchors: unexported functions outside the forks that rules name as
+// steps (they stay opaque calls in terms however small they become).
+var termAnchors = map[string]bool{"unpadOriginName": true}
